@@ -20,14 +20,29 @@ func VerifSalienceLiteral() {
 	}()
 	inRange := verif.And(v >= -2147483648, v <= 2147483647)
 	verif.Reach("salience:literal-processed")
-	if !panicked {
-		verif.Assert("C03:salience-in-range-literal-stored-exactly", verif.Implies(inRange, int64(sal.SalienceValue) == v))
-		verif.Assert("C03:salience-out-of-range-literal-not-stored-silently", inRange)
-		re := NewRuleEntry()
-		err := re.AcceptSalience(sal)
-		verif.Assert("C03:salience-reaches-the-rule-entry", verif.And(err == nil, verif.Implies(inRange, int64(re.Salience) == v)))
+	verif.Assert("C20:salience-literal-handled-without-panic", !panicked)
+	if panicked {
+		verif.Assert("C03:salience-in-range-literal-accepted", verif.Not(inRange))
+		return
+	}
+	// the literal reaches the rule entry exactly, or is rejected with an error - never stored silently as another value
+	re := NewRuleEntry()
+	var err error
+	func() {
+		defer func() {
+			if r := recover(); r != nil {
+				panicked = true
+			}
+		}()
+		err = re.AcceptSalience(sal)
+	}()
+	verif.Assert("C20:salience-handed-to-the-rule-without-panic", !panicked)
+	if panicked {
+		return
+	}
+	if err == nil {
+		verif.Assert("C03:salience-accepted-literal-is-in-range-and-stored-exactly", verif.And(inRange, int64(re.Salience) == v))
 	} else {
 		verif.Assert("C03:salience-in-range-literal-accepted", verif.Not(inRange))
 	}
-	verif.Assert("C20:salience-literal-handled-without-panic", !panicked)
 }
